@@ -3,7 +3,8 @@ from . import writer as W
 from . import sinks as S
 
 EXPLANATION = ('Static discharge of the error-ordering premises M1,M2(=>),M3,M4,M5,M7,M8 (+M9..M11 frame) of the proof in '
-               'DESIGN 6.5 and E1 (adapters and SocketStats::update surface the socket error unchanged).')
+               'DESIGN 6.5, E1 (adapters and SocketStats::update surface the socket error unchanged) and D1 (the sinks\' emit/flush = '
+               'blocking lock + one writer call + its result).')
 
 
 def check(ctx, rep):
@@ -22,3 +23,7 @@ def check(ctx, rep):
     W.rule_M11(m, rep)
     W.rule_G1(m, rep)
     S.rule_E1(ctx, rep)
+    # the sink's own emit()/flush() add nothing of their own to that: they wait for the lock (no try_lock error of their own
+    # making), call the line writer once on every path (a flush is always attempted) and return what it returned
+    from .common import KeepOnly
+    S.rule_lock_discipline(ctx, KeepOnly(rep, ('/one-blocking-lock', '/one-writer-call', '/returns-writer-result', '/overrides-flush'), 'D1'), 'D1')
